@@ -437,6 +437,14 @@ class Prog:
         tab = "\t" * ind
         for s in stmts:
             k = s["k"]
+            _start, _l0 = len(code), len(self.lines) + 1
+            self._emit_stmt(f, s, k, code, ind, tab)
+            for ins in code[_start:]:
+                if not ins.get("ln"):
+                    ins["ln"] = _l0
+
+    def _emit_stmt(self, f, s, k, code, ind, tab):
+        if True:
             if k == "src":
                 d, post = self._def(f, code, s["d"])
                 ln = self._line("%s%s = %s()" % (tab, s["d"], s.get("fn", "source")))
@@ -714,11 +722,11 @@ class Prog:
                 code.append(I("mkchan", d=d, n=ln, l=[s["n"]])); post()
             elif k == "send":
                 p = self._use(f, code, s["p"]); a = self._use(f, code, s["a"])
-                ln = self._line("%s%s <- %s" % (tab, s["p"], s["a"]))
+                ln = self._line("%s%s <- %s" % (tab, s["p"], argtxt([s["a"]])[0]))
                 code.append(I("send", a=[p, a], n=ln))
             elif k == "recv":
                 p = self._use(f, code, s["p"]); d, post = self._def(f, code, s["d"])
-                ln = self._line("%s%s = <-%s" % (tab, s["d"], s["p"]))
+                ln = self._line("%s%s = <-%s" % (tab, s["d"], s["p"]) if s["d"] not in ("", "_") else "%s<-%s" % (tab, s["p"]))
                 code.append(I("recv", d=d, a=[p], n=ln)); post()
             elif k == "gate":
                 ln = self._line("%sgate(%d)" % (tab, s["n"]))
@@ -767,7 +775,7 @@ def argtxt(xs):
 
 
 def I(op, d="", ds=None, a=None, s="", n=0, l=None):
-    return {"op": op, "d": d, "ds": ds or [], "a": a or [], "s": s, "n": n, "l": l or []}
+    return {"op": op, "d": d, "ds": ds or [], "a": a or [], "s": s, "n": n, "l": l or [], "ln": 0}
 
 
 # flat code of the fixed methods declared in TYPE_DECLS (receiver is parameter "r")
